@@ -42,7 +42,7 @@ import jsonargparse._util as _jutil  # noqa: E402
 PID = "C18"
 # Which variant of spec/Save.tla the tree under test is compared with: "code" = the pinned tree (file opened before
 # dump()), "dumpfirst" = after the repair proposed in tools/design.d/C18.md has been applied to /repo.
-VARIANT = os.environ.get("VERIF_C18_VARIANT", "code")
+VARIANT = os.environ.get("VERIF_C18_VARIANT", "dumpfirst")  # /repo carries the fix: commit 46f9a2e (strings are built before the file is opened)
 SFX = "" if VARIANT == "code" else "_" + VARIANT
 NPROC = min(16, os.cpu_count() or 4)
 S_KEYS = ["s1", "s2", "s3", "s4"]
@@ -308,12 +308,17 @@ def run_case(task) -> dict:
         how = {"format": "no-such-format" if fault[0] == "format" else fmt, "overwrite": sc["overwrite"], "multifile": sc["multifile"]}
         # the target as a relative string, an absolute string, an os.PathLike, or a Path object made for another directory
         r = rnd.random()
-        if r < 0.35:
+        saved_home = os.environ.get("HOME")
+        if r < 0.3:
             tgt = os.path.relpath(target, cwd_dir)
-        elif r < 0.6:
+        elif r < 0.5:
             tgt = target
-        elif r < 0.75:
+        elif r < 0.62:
             tgt = pathlib.Path(target)
+        elif r < 0.78 and not (os.path.isdir(target) or fault[0] == "noparent"):
+            # a spelling that only Path resolves: '~/name' with HOME pointing at the target directory
+            os.environ["HOME"] = os.path.dirname(target)
+            tgt = "~/" + os.path.basename(target)
         elif os.path.isdir(target) or fault[0] == "noparent":
             tgt = target
         else:
@@ -328,6 +333,10 @@ def run_case(task) -> dict:
                 obs["exc_tb"] = _where(ex)
         finally:
             builtins.open = _real_open
+            if saved_home is None:
+                os.environ.pop("HOME", None)
+            else:
+                os.environ["HOME"] = saved_home
         obs["fired"] = spy.fired
         inv = {v: k for k, v in loc.items()}
         obs["events"] = [[e, inv.get(p, "?" + os.path.relpath(p, root)), s] for e, p, s in spy.events]
@@ -631,12 +640,8 @@ def _cex_shape(res) -> dict:
 
 
 def _merge_own_findings(rep) -> None:
-    """known_findings.json is generated from tools/findings.d by the maintainer; until it has been regenerated the
-    fragment of this property is read directly (a committed file, never written at run time)."""
-    frag = common.VERIF / "tools" / "findings.d" / f"{PID}.json"
-    if frag.exists():
-        have = {f["key"] for f in rep._known}
-        rep._known += [f for f in json.loads(frag.read_text()) if f.get("property") == PID and f.get("status") == "known" and f["key"] not in have]
+    """known findings come from /verif/known_findings.json only (Report loads it)."""
+    return None
 
 
 if __name__ == "__main__":
